@@ -7,6 +7,7 @@ use crate::{Args, Log, TypeEntry};
 
 pub mod fsutil;
 pub mod history;
+pub mod libtypes;
 pub mod merge;
 pub mod paths;
 pub mod sem;
@@ -19,6 +20,7 @@ pub fn dispatch(args: &Args, reg: &[TypeEntry], log: &mut Log) {
         "C05" => merge::c05(args, reg, log),
         "C06" => history::c06(args, reg, log),
         "C08" => paths::c08(args, log),
+        "C12" => libtypes::c12(args, log),
         "C17" => history::c17(args, reg, log),
         "dump" => dump(reg, log),
         other => panic!("unknown monitor {other}"),
